@@ -42,7 +42,16 @@ for d in sorted((VERIF / "seeded").iterdir()):
 out = ["# Seeded changes and the checks that catch them", "",
        "Each change compiles and passes the 412 tests; `tools/seedtable.py` applies it to /repo, runs the quick check, reverts.", "",
        "| seed | check | result | signal | change |", "|---|---|---|---|---|"]
+table = VERIF / "seeded" / "DETECTION.md"
+if only and table.exists():
+    # partial run: replace the rows of the seeds that were run, keep the rest
+    done = {(r[0], r[1]) for r in rows}
+    for line in table.read_text().splitlines()[6:]:
+        cells = [c.strip() for c in line.strip().strip("|").split(" | ")]
+        if len(cells) >= 2 and (cells[0], cells[1]) not in done:
+            rows.append(tuple(cells + [""] * (5 - len(cells)))[:5])
+    rows.sort()
 for r in rows:
     out.append("| " + " | ".join(r) + " |")
-(VERIF / "seeded" / "DETECTION.md").write_text("\n".join(out) + "\n")
+table.write_text("\n".join(out) + "\n")
 print("\n".join(out[-len(rows):]))
